@@ -63,6 +63,11 @@ REPRESENTATIVES = [
     # (label, module source, name that must NOT be inferred safe)
     ("decorated-function", "def deco(fn):\n    def wrapper():\n        print(1)\n        return fn()\n\n    return wrapper\n\n\n@deco\ndef h():\n    return 1\n", "h"),
     ("name-is-also-a-parameter", "def h():\n    return 1\n\n\ndef g(h):\n    return 2\n", "h"),
+    ("name-is-also-a-keyword-only-parameter", "def h():\n    return 1\n\n\ndef g(a, *, h=h):\n    h()\n    return 2\n", "h"),
+    ("name-is-also-a-positional-only-parameter", "def h():\n    return 1\n\n\ndef g(h, /, a):\n    h()\n    return 2\n", "h"),
+    ("name-is-also-a-star-parameter", "def h():\n    return 1\n\n\ndef g(*h):\n    h[0]()\n    return 2\n", "h"),
+    ("name-is-also-a-double-star-parameter", "def h():\n    return 1\n\n\ndef g(**h):\n    return h\n", "h"),
+    ("name-is-also-a-lambda-parameter", "def h():\n    return 1\n\n\ng = lambda h: h()\n", "h"),
     ("name-is-defined-twice", "def h():\n    return 1\n\n\ndef h():\n    print(2)\n", "h"),
     ("name-is-also-a-method", "def h():\n    print(1)\n\n\nclass A:\n    def h(self):\n        return 2\n", "h"),
     ("name-is-also-assigned", "def h():\n    return 1\n\n\nh = print\n", "h"),
